@@ -11,6 +11,12 @@ for i in (1, 2, 3):
   for f in ('patch.diff', 'demo.py'):
     shutil.copy(os.path.join(src, f), os.path.join(dst, f))
   meta = json.load(open(os.path.join(src, 'meta.json')))
+  prev = None
+  if os.path.exists(os.path.join(dst, 'meta.json')):
+    try:
+      prev = json.load(open(os.path.join(dst, 'meta.json'))).get('confirmed_by_coordinator')
+    except Exception:
+      prev = None
   res = {}
   if os.path.exists(os.path.join(src, 'result.json')):
     try:
@@ -18,7 +24,8 @@ for i in (1, 2, 3):
     except Exception:
       res = {}
   meta['confirmed_by_coordinator'] = {
-      'repo_head': '995e587', 'applies_cleanly': 'apply' not in res,
+      'repo_head': os.popen('git -C /repo rev-parse --short HEAD').read().strip(),
+      'applies_cleanly': 'apply' not in res, 'applied_with': res.get('applied_with', 'git apply'),
       'demo_exit_clean_tree': res.get('demo_clean_exit'), 'demo_exit_patched_tree': res.get('demo_patched_exit'),
       'ran': 'tools/seed_test.py %s %s --repo <scratch worktree of /repo> (apply, demo, ./check %s --tier quick with VERIF_REPO=<scratch>, undo, replay on clean tree)' % (src, P, P),
       'check_exit_on_patched_tree': res.get('check_exit'),
@@ -26,5 +33,10 @@ for i in (1, 2, 3):
       'check_lines': res.get('check_lines'),
       'detected': res.get('check_exit') == 1 and bool(res.get('replays')),
   }
+  if prev:
+    hist = prev.pop('history', [])
+    if prev.get('repo_head') != meta['confirmed_by_coordinator']['repo_head']:
+      hist.append({k: prev.get(k) for k in ('repo_head', 'check_exit_on_patched_tree', 'detected', 'replays')})
+    meta['confirmed_by_coordinator']['history'] = hist
   json.dump(meta, open(os.path.join(dst, 'meta.json'), 'w'), indent=1)
   print(dst, 'detected' if meta['confirmed_by_coordinator']['detected'] else 'NOT DETECTED (exit %s)' % res.get('check_exit'))
